@@ -1204,7 +1204,7 @@ def fragment_data_dict(dd, chunk_size):
     # generate chunks with given chunk size
     chunks_dict = collections.defaultdict(list)
     for chrname in ndd.keys():
-        positions = sorted(ndd[chrname])
+        positions = sorted(ndd[chrname], key=lambda pos_info: (pos_info[0], pos_info[1] or ''))
         end = chunk_size
         chunk_index = 0
         chunks_dict[chrname].append([])
